@@ -162,6 +162,21 @@ struct Server
             case 'X':
                 ::shutdown(c, SHUT_RDWR);
                 return;
+            case 'z':
+            {
+                // the answer, then a reset: the next request handed over to this connection fails at its first send
+                pv::send_all(c, plain);
+                linger l { 1, 0 };
+                setsockopt(c, SOL_SOCKET, SO_LINGER, &l, sizeof l);
+                {
+                    std::lock_guard<std::mutex> g(m);
+                    for (auto& f : fds)
+                        if (f == c)
+                            f = -1;
+                }
+                ::close(c);
+                return;
+            }
             case 'U':
             case 'P':
             case 'S':
@@ -296,7 +311,7 @@ static std::string lost_wakeup(int threads, int rounds)
 
 // C <threads> <timeout ms>: a request to a port nobody listens on (connection refused), then a request to a live server
 // through the same client.  -> C refused=<F|R|P> live=<F|R|P>
-static std::string refused_case(int threads, int timeout_ms)
+static std::string refused_case(int threads, int timeout_ms, int count)
 {
     // a port that is certainly closed: bind, learn the number, close
     int probe = ::socket(AF_INET, SOCK_STREAM, 0);
@@ -327,6 +342,21 @@ static std::string refused_case(int threads, int timeout_ms)
             return st.load() == 1 ? "F" : st.load() == 2 ? "R" : "P";
         };
         std::string r1 = one("http://127.0.0.1:" + std::to_string(closed_port) + "/0/a");
+        if (count > 1)
+        {
+            // several requests at once for the refusing host: all of them fail, each once
+            std::atomic<int> rej { 0 }, ful { 0 };
+            for (int k = 0; k < count; ++k)
+            {
+                auto rb = client.get("http://127.0.0.1:" + std::to_string(closed_port) + "/" + std::to_string(k) + "/a");
+                if (timeout_ms > 0)
+                    rb.timeout(std::chrono::milliseconds(timeout_ms));
+                rb.send().then([&](Http::Response) { ++ful; }, [&](std::exception_ptr) { ++rej; });
+            }
+            for (int k = 0; k < (timeout_ms + 2500) * 10 && rej.load() + ful.load() < count; ++k)
+                std::this_thread::sleep_for(std::chrono::microseconds(100));
+            r1 = (rej.load() == count && ful.load() == 0) ? "R" : ("R" + std::to_string(rej.load()) + "F" + std::to_string(ful.load()));
+        }
         std::string r2 = one("http://127.0.0.1:" + std::to_string(srv.port) + "/1/a");
         out            = "C refused=" + r1 + " live=" + r2;
         srv.stop = true;
@@ -339,8 +369,8 @@ static std::string refused_case(int threads, int timeout_ms)
 static std::string handle(const std::string& line)
 {
     auto t = pv::split(line);
-    if (t.size() == 3 && t[0] == "C")
-        return refused_case(atoi(t[1].c_str()), atoi(t[2].c_str()));
+    if ((t.size() == 3 || t.size() == 4) && t[0] == "C")
+        return refused_case(atoi(t[1].c_str()), atoi(t[2].c_str()), t.size() == 4 ? atoi(t[3].c_str()) : 1);
     if (t.size() == 3 && t[0] == "L")
         return lost_wakeup(atoi(t[1].c_str()), atoi(t[2].c_str()));
     if (t.size() < 6)
